@@ -133,15 +133,19 @@ def replay_instance(m, task):
     # float-side variation: scale state j by 2^s_j (exact): x -> D x, P -> D P D, H -> H D^-1
     sc = np.array([2.0 ** int(s) for s in rng.randint(-3, 4, n)]) if task.get("scale") else np.ones(n)
     D = np.diag(sc); Di = np.diag(1 / sc)
+    # ... and of every measurement block: z -> c z, H -> c H, R -> c^2 R with c a power of two (exact; posterior and whitened
+    # innovation are unchanged), which moves R over the 1e-8 .. 1e8 range of the property
+    cs = [2.0 ** int(k) for k in rng.choice([-14, -13, -7, 0, 10, 13], size=nb)] if task.get("scale") else [1.0] * nb
     close = lambda got, exp: abs(got - exp) <= 1e-9 * max(1.0, abs(exp))
     for perm in itertools.permutations(range(1, nb + 1)):
         x = D @ np.array(inst["x0"], dtype=float)
         P = D @ np.array(inst["P0"], dtype=float) @ D
         for k, b in enumerate(perm):
             B = inst["blocks"][b - 1]
-            H = np.array(B["H"], dtype=float) @ Di
-            R = np.array(B["R"], dtype=float)
-            z = np.array(B["z"], dtype=float)
+            c = cs[b - 1]
+            H = c * (np.array(B["H"], dtype=float) @ Di)
+            R = c * c * np.array(B["R"], dtype=float)
+            z = c * np.array(B["z"], dtype=float)
             args = [x.copy(), P.copy(), z.copy(), H.copy(), R.copy()]
             snaps = [a.copy() for a in args]
             try:
@@ -176,12 +180,12 @@ def replay_instance(m, task):
             break
     # joint call with the stacked system vs the exact end state
     if not probs:
-        Hs = np.vstack([np.array(B["H"], dtype=float) for B in inst["blocks"]]) @ Di
-        zs = np.hstack([np.array(B["z"], dtype=float) for B in inst["blocks"]])
+        Hs = np.vstack([cs[i] * np.array(B["H"], dtype=float) for i, B in enumerate(inst["blocks"])]) @ Di
+        zs = np.hstack([cs[i] * np.array(B["z"], dtype=float) for i, B in enumerate(inst["blocks"])])
         mtot = len(zs)
         Rs = np.zeros((mtot, mtot)); o = 0
-        for B in inst["blocks"]:
-            k = len(B["z"]); Rs[o:o + k, o:o + k] = np.array(B["R"], dtype=float); o += k
+        for i, B in enumerate(inst["blocks"]):
+            k = len(B["z"]); Rs[o:o + k, o:o + k] = cs[i] ** 2 * np.array(B["R"], dtype=float); o += k
         ex, eP, _, _ = steps[tuple(range(1, nb + 1))]
         try:
             xj, Pj, _ = kalman.correct(D @ np.array(inst["x0"], dtype=float), D @ np.array(inst["P0"], dtype=float) @ D, zs, Hs, Rs)
@@ -232,7 +236,7 @@ def check(rep, pid, tier, seed):
         if (i + 1) not in steps:
             rep.machinery("no exact states printed for instance %d" % (i + 1))
             continue
-        for variant in range(2 if tier == "quick" else 6):
+        for variant in range(3 if tier == "quick" else 8):
             tasks.append(dict(inst=inst, steps=steps[i + 1], seed=seed * 101 + i * 7 + variant, scale=variant > 0, idx=i + 1))
     for k, status, out in pool.run_tasks(lambda m, t: replay_instance(m, t), tasks, init=filt._imports, task_timeout=300):
         t = tasks[k]
